@@ -125,7 +125,7 @@ func (w *World) Genesis() *fsm.GenesisState {
 	g := env.NewGenesis(w.Accounts, w.Vals, func(p *fsm.Params) {
 		p.Consensus.ProtocolVersion = fsm.NewProtocolVersion(0, uint64(w.Proto))
 		v := p.Validator
-		v.UnstakingBlocks, v.DelegateUnstakingBlocks, v.MaxPauseBlocks = 2, 2, 2
+		v.UnstakingBlocks, v.DelegateUnstakingBlocks, v.MaxPauseBlocks = 2, 2, 3 // max-pause 3: a slash certified right after a pause lands BEFORE the max-pause height
 		v.NonSignWindow, v.MaxNonSign = 2, 1
 		v.NonSignSlashPercentage, v.DoubleSignSlashPercentage, v.MaxSlashPerCommittee = 5, 10, 15
 		v.MinimumOrderSize = w.MinOrd
